@@ -60,18 +60,19 @@ def tlc_deviation(ctx) -> list | None:
 
 
 class World:
-    def __init__(self, root, seed: int, npatch: int, n: int, closed: str = "right") -> None:
+    def __init__(self, root, seed: int, npatch: int, n: int, closed: str = "right", sep_deg: float = 3.0) -> None:
         self.yaw = data.import_yaw()
         self.root = root
         self.npatch = npatch
-        centers = data.centers_grid(npatch, sep_deg=3.0)
+        centers = data.centers_grid(npatch, sep_deg=sep_deg)
         self.centers = centers
-        dref = data.frame(seed, n, npatch, sep_deg=3.0, spread_deg=1.6)
+        spread = 1.6 * sep_deg / 3.0
+        dref = data.frame(seed, n, npatch, sep_deg=sep_deg, spread_deg=spread)
         # patch 1 has no object in the highest redshift bin (an empty tree next to populated neighbours)
         sel = (dref["pid"] == 1) & (dref["z"] > 0.69)
         dref.loc[sel, "z"] = 0.2 + 0.4 * (dref.loc[sel, "z"] - 0.69)
         self.config = self.yaw.Configuration.create(rmin=500.0, rmax=5000.0, zmin=0.1, zmax=1.0, num_bins=3, closed=closed)
-        drnd = data.frame(seed + 2, 2 * n, npatch, sep_deg=3.0, spread_deg=1.6)
+        drnd = data.frame(seed + 2, 2 * n, npatch, sep_deg=sep_deg, spread_deg=spread)
         # every 4th object sits exactly on a bin edge (outer edges included): the closed side must survive
         # every process boundary (patch 1 keeps its empty highest bin: only the two lowest edges there)
         edges = [float(e) for e in self.config.binning.edges]
@@ -80,7 +81,7 @@ class World:
                 choice = edges[:2] if int(df.loc[k, "pid"]) == 1 else edges
                 df.loc[k, "z"] = choice[(k // 4) % len(choice)]
         self.ref = data.make_catalog(root / "ref", dref, centers)
-        self.unk = data.make_catalog(root / "unk", data.frame(seed + 1, n, npatch, sep_deg=3.0, spread_deg=1.6), centers, redshifts=False)
+        self.unk = data.make_catalog(root / "unk", data.frame(seed + 1, n, npatch, sep_deg=sep_deg, spread_deg=spread), centers, redshifts=False)
         self.rnd = data.make_catalog(root / "rnd", drnd, centers)
         self.tmp = root / "tmp"
         self.progress = False      # run the entry points with the progress display on (results pass through the Indicator)
@@ -242,7 +243,8 @@ def run(ctx) -> None:
         single = [("load", max_nt, "left"), ("build", max_nt, "left"), ("hist", max_nt, "left"), ("build", 3, "right"), ("hist", 3, "right")]
         for ep, npatch, closed in single:
             if npatch not in worlds:
-                worlds[npatch] = World(root / f"w{npatch}", ctx.seed + npatch, npatch, 60 if quick else 150, closed=closed)
+                # (the cache lives below a directory that itself looks like a patch directory: a survey processed region by region)
+                worlds[npatch] = World(root / f"region_patch_{npatch}" / "w", ctx.seed + npatch, npatch, 60 if quick else 150, closed=closed)
             world = worlds[npatch]
             base = getattr(world, f"ep_{ep}")(1)
             for W in range(2, npatch + 2):
@@ -281,6 +283,19 @@ def run(ctx) -> None:
                 ctx.evaluated(1, ("count_auto", W, order) if list(order) != sorted(order) else None)
                 ctx.validated(1)
                 check_outcome(ctx, "count_auto", W, nt_auto, calls, outcome, base)
+        # many patch pairs per worker (7 fully linked patches: 49 cross / 28 auto jobs): dispatch in batches must not lose jobs
+        w7 = World(root / "pc7", ctx.seed + 200, 7, 70 if quick else 140, closed="right", sep_deg=0.6)
+        w7.prepare_trees()
+        ctx.extra["pair_tasks_7_patches"] = dict(auto=len(w7.links.get_patch_pairs(w7.cref)), cross=len(w7.links.get_patch_pairs(w7.cref, w7.cunk)))
+        for ep in ("count_cross", "count_auto"):
+            base7 = getattr(w7, f"ep_{ep}")(1)
+            for W in ((2, 3) if quick else (2, 3, 4, 5, 8)):
+                for r in range(2 if quick else 6):
+                    sub = random.Random(rng.random())
+                    outcome, calls, _ = run_with_orders(w7, ep, W, lambda i, w, nt, sub=sub: feasible_random(sub, w, nt))
+                    ctx.evaluated(1, (ep, "7patches", W, tuple(c[2] for c in calls)))
+                    ctx.validated(1)
+                    check_outcome(ctx, ep, W, None, calls, outcome, base7)
         # composite entry points with one random feasible order per internal call
         nruns = 25 if quick else 300
         for ep in ("count_cross", "crosscorrelate", "autocorrelate"):
